@@ -819,6 +819,46 @@ def r8_token_invariants(rep, src):
     rep.analysed['paths'] += n
 
 
+def r9_duplicate_detection(rep, src):
+    """from_kvpairs interpreted on paragraphs whose field names are case-insensitive keys: the implementation without
+    duplicate support (dictionary keyed by the case-insensitive name) may only be chosen when no two names are equal under
+    that equality; otherwise the earlier field would be overwritten in the dictionary and vanish from the dump"""
+    from .. import heap as H
+    mods = [src.mod(PM), src.mod('_util')]
+    f = src.func(PM + ':Deb822ParagraphElement.from_kvpairs')
+    rep.saw_func(f)
+
+    def run(names):
+        made = []
+
+        def mk(cls_):
+            def hook(it, args, kw):
+                made.append(cls_)
+                return it.h.alloc(cls_, {})
+            return hook
+        heap = H.Heap(mods[0], extra_modules=[mods[1]],
+                      hooks={'Deb822NoDuplicateFieldsParagraphElement': mk('no-duplicates'), 'Deb822DuplicateFieldsParagraphElement': mk('duplicates'),
+                             'str': lambda it, a, k: a[0].spelling if isinstance(a[0], H.Key) else a[0],
+                             '.lower': lambda it, a, k: H.Key(a[0].cls, a[0].cls) if isinstance(a[0], H.Key) else NotImplemented})
+        kvs = [heap.alloc('Deb822KeyValuePairElement', {'field_name': n_}) for n_ in names]
+        try:
+            H.Interp(heap).call(H.Closure(f.node, {}, ('class', 'Deb822ParagraphElement'), f.cls), [heap.new_list(kvs)])
+        except H.Raised as x:
+            return 'raises ' + x.exc
+        return made[0] if len(made) == 1 else repr(made)
+    A, a_, B = H.Key('depends', 'Depends'), H.Key('depends', 'depends'), H.Key('source', 'Source')
+    cases = [('distinct names', [A, B], ('no-duplicates', 'duplicates')), ('the same name twice', [A, B, A], ('duplicates',)),
+             ('two spellings of one name', [A, a_], ('duplicates',)), ('two spellings of one name among others', [B, a_, A], ('duplicates',))]
+    for label, names, want in cases:
+        got = run(names)
+        if got in want:
+            rep.ok('C01.R9', f.site, 'implementation chosen for ' + label, got)
+        else:
+            rep.fail('C01.R9', f.site, 'implementation chosen for ' + label, 'a paragraph with the fields %s is built as %s: the implementation keyed by the case-insensitive '
+                     'name keeps only the last of the fields that are equal under it, so the earlier field (with its comments) vanishes from the dump'
+                     % ([n_.spelling for n_ in names], got), where=f.where)
+
+
 def check(src, rep, tier):
     rep.explanation = ('C01: (R1) L_match(_RE_FIELD_LINE) ∩ LINE ⊆ L_fullmatch; (R2) on the marked automaton every character of a matched line '
                        'lies in exactly one capturing group, groups in index order; (R3) the tokenizer loop body is interpreted over character '
@@ -827,7 +867,8 @@ def check(src, rep, tier):
                        'path must emit [0, len(line)) exactly once in order; (R4) the three re-grouping generators are interpreted over stream '
                        'positions with the BufferingIterator API modelled; (R5) constructor-parameter order = iter_parts order, dump = join of '
                        'all token texts; (R6) whitespace look-ahead merges only newline-terminated lines / supplies the newline; (R8) every token '
-                       'constructor is interpreted on the language of the texts a tokenizer can hand it and never raises.')
+                       'constructor is interpreted on the language of the texts a tokenizer can hand it and never raises; (R9) from_kvpairs interpreted on '
+                       'case-insensitive names chooses the duplicate-capable paragraph whenever two names are equal under that equality.')
     rep.not_decided = ['absence of every possible exception beyond the token-invariant obligations', 'bytes lines that are not UTF-8']
     rep.need('C01.R1', 1)
     rep.need('C01.R2', 1)
@@ -837,6 +878,7 @@ def check(src, rep, tier):
     rep.need('C01.R6', 2)
     rep.need('C01.R7', 1)
     rep.need('C01.R8', 8)
+    rep.need('C01.R9', 4)
     ginfo = rep.guard('C01.R1', r1_r2_field_regex, src)
     loop = None
     if ginfo is not None:
@@ -847,3 +889,4 @@ def check(src, rep, tier):
     rep.guard('C01.R4', r4_regrouping, src)
     rep.guard('C01.R5', r5_element_order, src)
     rep.guard('C01.R8', r8_token_invariants, src)
+    rep.guard('C01.R9', r9_duplicate_detection, src)
